@@ -301,6 +301,10 @@ class Type4Tag(nfc.tag.Tag):
 
             self._max_le = mle
             self._max_lc = mlc
+            if not self.tag._extended_length_support:
+                # only short APDU length fields can be sent
+                self._max_le = min(mle, 256)
+                self._max_lc = min(mlc, 255)
             self._capacity = mfs - tag + 2
             self._readable = bool(rf == 0)
             self._writeable = bool(wf == 0)
